@@ -5,11 +5,27 @@ import json, os, subprocess
 ROOT = os.path.dirname(os.path.dirname(os.path.abspath(__file__)))
 
 # id -> (technique, level text, level note, design ref)
+TRUST = "Trusts the generator-side model, printer, static analysis and reference interpreter in harness/src (written from the property statements), the recording scripted TestDriver being the only path to the device, proptest, and catch_unwind."
+
+def C(tech, text, note=""):
+    return (tech, text + " Exploration, not proof: bounds in DESIGN.md section 4/7.", (note + " " if note else "") + TRUST)
+
 CLAIMED = {
-    "C01": ("proptest: generated programs vs reference interpreter (model-based differential)",
-            "Generated-input search: tens of thousands of generated control-flow programs per run, every row of each compared with an independent reference interpreter written from the property statement. Exploration, not proof: bounded nesting (<=5), <=300 rows per program.",
-            "Trusts the reference interpreter, printer and static analysis in harness/src (about 1 kLoC), proptest, and catch_unwind. Excludes let-rebinding of the innermost loop counter (statement ambiguous) and expression hazards (C10).",
-            "DESIGN.md section 4 C01"),
+    "C01": C("proptest: generated programs vs reference interpreter (model-based differential)",
+             "Generated control-flow programs (nesting <= 5), every row compared with an independent reference interpreter written from the property statement.",
+             "Excludes let-rebinding of the innermost loop counter (statement ambiguous) and expression hazards (C10)."),
+    "C02": C("proptest: generated programs + caller schedules, invariant over the driver call log",
+             "Self-consistency between the recording driver's log and the yielded items, measured as the log delta of every API call (constructor, each next(), post-None calls, drop) for both driver types; closed formula for mid-clock row counts.",
+             "Fault-free drivers only (faults are C13)."),
+    "C03": C("proptest: generated output layouts and value histories vs the driver's own record + 3x3 verdict table",
+             "Every checked row's outputs compared with what the recording driver returned for that signal in that call, for any subset/permutation layout and Z/X/boundary values; check()/is_checked()/failing_outputs() against an independent table."),
+    "C05": C("proptest: generated row shapes vs reference expansion, checked on rows and on the driver call log",
+             "Rows with 0-3 C and 0-5 X at any position and loop depth; reference expansion order against the row stream and the call log (method and vector).",
+             "Columns bound both to an input and to an expected signal never hold X or C (statement contradicts itself there)."),
+    "C07": C("exhaustive sweep widths 1..=64 x 40 boundary values x 3 delivery paths, plus proptest random (width, value) pairs; closed-form oracle",
+             "value & (2^w-1) computed in u64 against the input as received by the driver, row.inputs and expected values on input, output, bidirectional and virtual columns."),
+    "C08": C("proptest: generated expression trees printed with minimal/redundant parentheses vs independent evaluator",
+             "Expression trees (depth <= 6, all operators, every radix, 64-bit boundary operands, boundary shift counts, hazards in unselected ite branches) evaluated by an independent evaluator and compared with the untruncated expected value of a 64-bit column."),
 }
 
 def props():
@@ -34,7 +50,8 @@ def main():
     for p in props():
         pid = p["id"]
         if pid in CLAIMED:
-            tech, text, note, ref = CLAIMED[pid]
+            tech, text, note = CLAIMED[pid]
+            ref = f"DESIGN.md section 4, {pid}"
             checks.append({
                 "property_id": pid,
                 "quick_cmd": f"./check {pid} quick",
